@@ -7,10 +7,9 @@ EXTENDS M2Layout, IOUtils
 Thorough == IOEnv.VERIF_TIER = "thorough"
 \* sections whose sizes vary with the version or that carry payloads, plus fixed-size neighbours
 MCSecs == IF Thorough
-          THEN {"name", "animations", "bones", "key_bone_lookup", "vertices", "textures", "materials", "views",
-                "particle_emitters", "ribbon_emitters", "events", "attachments", "cameras", "lights"}
-          ELSE {"name", "animations", "bones", "vertices", "textures", "views", "ribbon_emitters", "events",
-                "cameras", "lights"}
+          THEN {"name", "animations", "bones", "vertices", "textures", "views",
+                "ribbon_emitters", "events", "attachments", "cameras", "lights"}
+          ELSE {"name", "animations", "bones", "textures", "views", "events", "cameras", "lights"}
 Many == 3
 TailBytes(sec) == IF sec \in Tracked THEN Many * TracksOf(sec) * (2 * 4 + 2 * 12 + 2 * 8)
                   ELSE IF sec = "textures" THEN Many * 21
